@@ -25,7 +25,8 @@ CLAIMED = {
          "point triplets of a simple glyph (_encodeTriplets / _decodeTriplets, all 128 delta classes with their bit packing) are modelled; for "
          "every point list the encoder accepts, decoding returns exactly the points and leaves what follows in both streams untouched, and the "
          "encoder accepts a step exactly when both components fit 16 bits (bit operations reduced to arithmetic by small finite sweeps, the six "
-         "classes by linear arithmetic). Tied to the code by byte-exact "
+         "classes by linear arithmetic). maxp's composite statistics (getCompositeMaxpValues with its depth accumulator) equal the totals of the "
+         "flattened glyph and its nesting depth for every glyph tree. Tied to the code by byte-exact "
          "correspondence on random table lists and on point lists at every class boundary (plus damaged streams for the decoder); WOFF/WOFF2/TTC containers and all derived fields (bboxes, maxp, hhea, hmtx, loca) are checked "
          "on the implementation by an independent spec reader over corpus and generated boundary fonts (testing, reported as such).",
          "Rocq proof over a hand-written writer model + byte-exact correspondence + independent-reader sweep"),
